@@ -158,7 +158,8 @@ def tree(e, ids=None, depth=0):
         d["base"] = tree(e.base, ids, depth + 1)
         d["dv"] = bits(e.disp, e.size)
         d["disp"] = e.disp if -2 ** 30 < e.disp < 2 ** 30 else 0
-        d["seg"] = str(e.seg) if e.seg is not None and e.seg != "" else ""
+        sg = e.seg   # may be '', None or an expression: never compare an expression with != (overloaded)
+        d["seg"] = "" if (sg is None or isinstance(sg, str)) else "seg"
     elif k == "mem":
         d["a"] = tree(e.a, ids, depth + 1)
         d["en"] = e.endian
